@@ -21,7 +21,9 @@ func (p *planner) analyzeScript() {
 		if ppl.LabelFilter != nil {
 			p.simpleLabelOperation[i] = true
 		}
-		if ppl.Parser != nil {
+		// a label filter can be answered from the stored labels only while no earlier
+		// stage changed the label set
+		if ppl.Parser != nil || ppl.Drop != nil || ppl.LabelFormat != nil {
 			break
 		}
 	}
